@@ -45,4 +45,29 @@ def battery():
                 b, o = evaluate(adv, rem, ev)
                 n += 1
                 bad += ['adv %s rem %s: %s' % (adv, rem, x) for x in b]
-    return bad, n
+    r = replay_child()
+    if r['replayed']:
+        bad.append(r['detail'])
+    return bad, n + 6
+
+
+def replay_child(rp=None):
+    """the session's reaction to the exit / failure of its transport actor and of a proxy, on the real handler"""
+    bad = []
+    obs = {}
+    for child in ('tcp', 'proxy', 'stranger'):
+        for ev in ('ActorTerminated', 'ActorFailed'):
+            out, _l, rc, err = native.run('session_child_exit', child=child, event=ev, timeout=30)
+            if rc != 0:
+                raise RuntimeError('native session_child_exit failed: ' + err[-300:])
+            d = dict(x.split('~', 1) for x in out['out'].split(';'))
+            obs['%s/%s' % (child, ev)] = d
+            if child == 'tcp' and d.get('session_stopped') != '1':
+                bad.append('%s of the transport actor: the session keeps running' % ev)
+            if child == 'stranger' and (d.get('session_stopped') != '0' or d.get('table') != '77:old,78:old'):
+                bad.append('%s of an unknown child changed something: %s' % (ev, d))
+            if child == 'proxy' and ev == 'ActorTerminated' and (d.get('table') != '78:old' or d.get('old77_running') != '0' or d.get('session_stopped') != '0'):
+                bad.append('an exited proxy must leave the table and be stopped: %s' % d)
+            if child == 'proxy' and ev == 'ActorFailed' and (d.get('table') != '77:new,78:old' or d.get('old77_running') != '0' or d.get('session_stopped') != '0'):
+                bad.append('a failed proxy must be replaced by a fresh one for the same pid: %s' % d)
+    return {'replayed': bool(bad), 'detail': 'native handle_supervisor_evt on child exits: %s' % (bad or obs), 'replay': {'which': 'child_exit'}}
